@@ -656,6 +656,17 @@ theorem zip_same_deque (it : Iter) (d : Deque) (x y : Nat) (m : Mem) (hi : d.Inv
     List.getElem?_eq_getElem hl]
   simp
 
+/-- **the D3 hypothesis of the `iter_add` statements cannot be dropped** (negation witness, finding D3):
+four elements, the cursor directly behind the *first* yielded element (`index = 1`, so `1 ≤ index` and
+`index + 1 ≤ size / 2`) — the commonest call: the model (= the C code) returns `CC_OK` but the content is not
+the ideal cursor's insertion -/
+theorem iter_add_front_half_wrong :
+    Deque.d3Wrapped.Inv ∧ inD3 1 Deque.d3Wrapped.size (.add 9) ∧
+    (stepI { index := 1 } Deque.d3Wrapped {} (.add 9)).1.st = some .ok ∧
+    (stepI { index := 1 } Deque.d3Wrapped {} (.add 9)).2.2.1.abs = [1, 2, 9, 3, 4] ∧
+    (stepC { pos := 1 } Deque.d3Wrapped.abs (.add 9)).2.2 = [1, 9, 2, 3, 4] :=
+  ⟨by decide, ⟨by decide, by decide⟩, by decide, by decide, by decide⟩
+
 /-- non-vacuity: a wrapped, exactly full ring is traversed completely -/
 example : (drain (Deque.mk 4 4 3 3 [12, 13, 14, 11] .conf) 4 {} {}).1 = [11, 12, 13, 14] := by decide
 
